@@ -353,6 +353,35 @@ def ctor_scenarios():
                 s.add("ADV 61000")
                 s.add("K 0")
                 scns.append(s)
+    # a daemon whose session table could not be created at start-up (the daemons do not check): every table function and the
+    # tick take a missing table; the mapping engine still runs its time-outs
+    disc = W.discover(MAPPER, 0x0101, 0x0202, [], tos=0)
+    for variant in range(4):
+        s = H.Scenario("ctor-notable-%d" % variant, meta=dict(kind="ctor", which="T", k=1, mode=1, fault="no session table", notable=True))
+        s.iface(0, **H.iface_kw(cfg_for(0)))
+        s.add("OPT sleep=0")
+        s.add("AC 0 M")
+        s.add("AC 0 S")
+        s.add("AC 0 E")
+        s.add("LEDGER")
+        s.add("FAULT malloc 1 1")
+        s.add("AC 0 T")
+        s.add("CLEAR")
+        s.add("LEDGER")
+        s.add("OPT noensure=1")
+        s.frame(0, disc, op="W")
+        s.add("K 0")
+        if variant & 1:
+            s.frame(0, W.simple(W.OP_CHARGE, OWN, MAPPER, 3), op="W")
+        s.frame(0, W.probe(OWN, S1, OWN, S1), op="W")
+        s.add("ADV %d" % (31000 if variant < 2 else 61000))
+        s.add("K 0")
+        s.add("KR 0 5 100")
+        s.frame(0, disc, op="W")
+        s.frame(0, W.reset(MAPPER, tos=0), op="W")
+        s.add("ADV 31000")
+        s.add("K 0")
+        scns.append(s)
     return scns
 
 
